@@ -118,7 +118,15 @@ def user_fn(*a, **k):  # module-level so that fully_qualified_name is stable
       min_obligations=6)
 def process_unit(ctx):
     graph, util, errors, _graph = _real()
-    tr = Trace()
+    released_when_completed = []
+
+    class TraceR(Trace):
+        def increment_completed(self, *, section, scope):
+            # an observer may be slow or block: by the time it is told that the call completed, the call's inputs must already be released
+            released_when_completed.append(slot.value is None)
+            Trace.increment_completed(self, section=section, scope=scope)
+
+    tr = TraceR()
     def RETRY(f):      # a decorator (callable), identified by identity
         return f
 
@@ -166,6 +174,7 @@ def process_unit(ctx):
     s = ("outer", 7, util.fully_qualified_name(user_fn))
     ctx.check("call:invoked-exactly-once-through-bound_call.run(node.fn,retry)", bool(calls == [(user_fn, RETRY)]), props=["C04", "C10", "C02"])
     ctx.check("call:bound-call-released-on-every-exit", bool(slot.value is None), props=["C16"])
+    ctx.check("call:bound-call-released-BEFORE-the-observer-is-told-that-the-call-completed", bool(all(released_when_completed)), props=["C16"])
     running = ("running", "run", s)
     if kind == "ret":
         ctx.check("returns:trace==running.completed(same-section-and-scope=user-scope+function-name)", bool(tr.ev == [running, ("completed", "run", s)]), props=["C15"])
@@ -596,7 +605,32 @@ def failing_case(name, kind, workers, sched, display=False):
     l = plan.call(late)
     try: uberjob.run(plan, output=[c, l, f0], progress=progress, max_workers=workers, scheduler=sched, max_errors=None)
     except uberjob.CallError: pass
+# an observer that looks (or blocks) when it is told that a call completed: that call's inputs must be gone by then
+def observed_case(name, workers, sched):
+    refs = {}
+    class O(uberjob.progress.ProgressObserver):
+        def __enter__(self): return self
+        def __exit__(self, *a): pass
+        def increment_total(self, **k): pass
+        def increment_running(self, **k): pass
+        def increment_failed(self, **k): pass
+        def increment_completed(self, *, section, scope):
+            if section == "run" and scope and str(scope[-1]).endswith("consume_a") and refs["a"]() is not None:
+                problems.append(f"{name}: the observer is told that the only consumer of 'a' completed while 'a' is still alive")
+    class P(uberjob.progress.Progress):
+        def __init__(self): pass
+        def observer(self): return O()
+    def make_a():
+        b = Big("a"); refs["a"] = weakref.ref(b); return b
+    def consume_a(x): return "consumed"
+    def after(x): return x
+    plan = uberjob.Plan(); a = plan.call(make_a); c = plan.call(consume_a, a); z = plan.call(after, c)
+    for progress in (P(), (P(),)):
+        uberjob.run(plan, output=z, progress=progress, max_workers=workers, scheduler=sched)
 gc.disable()      # strict reading: freed by reference counting, not at some later cyclic collection
+for workers in (1, 3):
+    for sched in ("default", "random"):
+        observed_case(f"observed-completion[workers={workers},{sched}]", workers, sched)
 for workers in (3,):
     for sched in ("default", "random"):
         for kind in ("exception", "base", "c-level", "c-level-first"):
